@@ -14,6 +14,10 @@
 (*   step   non-zero integer added to i each iteration                       *)
 (*   extra  "none" | "cont" (body: if i%3 == 0 { continue }) |               *)
 (*          "condupd" (the update sits in both arms of an if) |              *)
+(*          "partupd" (post-less loop; the body counts its entries in c and  *)
+(*          updates i only when c%3 # 0, then `continue`s; otherwise it      *)
+(*          accumulates: the loop has TWO back edges, only one carries the   *)
+(*          update — NOT an arithmetic progression) |                        *)
 (*          "revsub" (the update is i = step - i: NOT an arithmetic          *)
 (*          progression; an analysis that says it is one is wrong)           *)
 (*   width  0 = int (no wrap-around in range) | 8 = uint8 (mod 256)          *)
@@ -30,7 +34,7 @@ CONSTANTS MaxIter, Steps, Starts, Limits, Widths, Export
 
 Cmps == {"<", "<=", ">", ">=", "!="}
 Shapes == [pos : {"top", "bottom"}, cmp : Cmps, stay : BOOLEAN, ivLeft : BOOLEAN, step : Steps,
-           extra : {"none", "cont", "condupd", "revsub"}, width : Widths]
+           extra : {"none", "cont", "condupd", "revsub", "partupd"}, width : Widths]
 
 VARIABLES sh, a, n, pc, i, s, hdr, iters
 vars == <<sh, a, n, pc, i, s, hdr, iters>>
@@ -46,6 +50,7 @@ Valid(shape, st, lim) ==
   /\ (shape.width = 8 => (st \in 0..255 /\ lim \in 0..255))
   /\ (shape.extra = "cont" => shape.pos = "top")      \* `continue` is generated for the for-clause form only
   /\ (shape.extra = "revsub" => shape.step > 0 /\ shape.pos = "top")
+  /\ (shape.extra = "partupd" => shape.pos = "top")
 
 Init == /\ sh \in Shapes /\ a \in Starts /\ n \in Limits /\ Valid(sh, a, n)
         /\ pc = "hdr" /\ i = a /\ s = 0 /\ hdr = <<>> /\ iters = 0
@@ -61,8 +66,10 @@ Header ==
 Body ==
   /\ pc = "body"
   /\ iters' = iters + 1
-  /\ s' = IF sh.extra = "cont" /\ i % 3 = 0 THEN s ELSE s + 2 * i + 1
-  /\ i' = IF sh.extra = "revsub" THEN Wrap(sh.step - i, sh.width) ELSE Wrap(i + sh.step, sh.width)
+  /\ s' = IF sh.extra = "cont" /\ i % 3 = 0 THEN s
+          ELSE IF sh.extra = "partupd" /\ (iters + 1) % 3 # 0 THEN s ELSE s + 2 * i + 1
+  /\ i' = IF sh.extra = "revsub" THEN Wrap(sh.step - i, sh.width)
+          ELSE IF sh.extra = "partupd" /\ (iters + 1) % 3 = 0 THEN i ELSE Wrap(i + sh.step, sh.width)
   /\ pc' = IF sh.pos = "bottom" THEN (IF Test(i') THEN "hdr" ELSE "exit") ELSE "hdr"
   /\ UNCHANGED <<sh, a, n, hdr>>
 
